@@ -26,12 +26,13 @@ type ggMarker struct {
 func genGGProg(r *rand.Rand) (*Prog, []ggMarker) {
 	var ms []ggMarker
 	files := map[string]string{"go.mod": "module " + ggMod + "\n\ngo 1.26\n"}
-	type pk struct{ T, Fa, Fb, Fn, Lit, LitVal, File, Sink, um string }
+	type pk struct{ T, Fa, Fb, Fn, Lit, LitVal, File, Sink, um, R, Ra, Rb, Ref string }
 	pks := map[string]pk{}
 	mk := func(short string) pk {
 		s := randAlnum(r, 7)
 		p := pk{T: "ZqT" + s, Fa: "ZqFa" + s, Fb: "ZqFb" + s, Fn: "ZqFn" + s, Lit: "ZqLit" + s, LitVal: "planted literal of " + short + " " + randAlnum(r, 16),
-			File: "zq" + randLower(r, 8) + "file", Sink: "ZqSink" + s, um: "zqum" + s}
+			File: "zq" + randLower(r, 8) + "file", Sink: "ZqSink" + s, um: "zqum" + s,
+			R: "ZqR" + s, Ra: "ZqRa" + s, Rb: "ZqRb" + s, Ref: "ZqRef" + s}
 		for _, m := range [][2]string{{p.T, "type"}, {p.Fa, "field"}, {p.Fb, "field"}, {p.Fn, "func"}, {p.Lit, "func"}, {p.LitVal, "literal"}, {p.File, "filename"}, {p.um, "umethod"}} {
 			ms = append(ms, ggMarker{m[0], m[1], short})
 		}
@@ -72,14 +73,14 @@ func %[6]s(n int) int {
 
 //go:noinline
 func %[7]s() string { return %[8]q }
-`, short, imp.String(), p.T, p.Fa, p.Fb, p.Fn, p.Lit, p.LitVal, p.Sink, p.um, use.String())
+`, short, "import \"encoding/json\"\nimport \"reflect\"\n"+imp.String(), p.T, p.Fa, p.Fb, p.Fn, p.Lit, p.LitVal, p.Sink, p.um, use.String()) + fmt.Sprintf(ggReflTmpl, p.R, p.Ra, p.Rb, p.Ref)
 	}
 	mp := mk("cmd/zqapp")
 	var imp, use strings.Builder
 	for _, d := range ggPkgs {
 		dp := pks[d]
 		fmt.Fprintf(&imp, "\t%q\n", ggMod+"/"+d)
-		fmt.Fprintf(&use, "\t{\n\t\tx := %s.%s{%s: n}\n\t\tfmt.Println(%q, %s.%s(n), x.%s, %s.%s(), %s.%s != nil)\n\t}\n", d, dp.T, dp.Fa, d, d, dp.Fn, dp.Fa, d, dp.Lit, d, dp.Sink)
+		fmt.Fprintf(&use, "\t{\n\t\tx := %s.%s{%s: n}\n\t\tfmt.Println(%q, %s.%s(n), x.%s, %s.%s(), %s.%s != nil, %s.%s(n))\n\t}\n", d, dp.T, dp.Fa, d, d, dp.Fn, dp.Fa, d, dp.Lit, d, dp.Sink, d, dp.Ref)
 	}
 	files["cmd/zqapp/"+mp.File+".go"] = fmt.Sprintf(`package main
 
@@ -110,10 +111,49 @@ func %[6]s() string { return %[7]q }
 
 func main() {
 	n := len(os.Args)
-%[10]s	fmt.Println("main", %[5]s(n), %[6]s())
+%[10]s	fmt.Println("main", %[5]s(n), %[6]s(), %[11]s(n))
 }
-`, imp.String(), mp.T, mp.Fa, mp.Fb, mp.Fn, mp.Lit, mp.LitVal, mp.Sink, mp.um, use.String())
+`, "\t\"encoding/json\"\n\t\"reflect\"\n"+imp.String(), mp.T, mp.Fa, mp.Fb, mp.Fn, mp.Lit, mp.LitVal, mp.Sink, mp.um, use.String(), mp.Ref) + fmt.Sprintf(ggReflTmpl, mp.R, mp.Ra, mp.Rb, mp.Ref)
 	return &Prog{Module: ggMod, Files: files}, ms
+}
+
+const ggReflTmpl = `
+// Reflected type: its names legitimately stay recoverable, so they are not byte-scan markers.
+type %[1]s struct {
+	%[2]s int
+	%[3]s string
+}
+
+//go:noinline
+func %[4]s(n int) string {
+	v := %[1]s{%[2]s: n, %[3]s: "r"}
+	b, _ := json.Marshal(&v)
+	t := reflect.TypeOf(v)
+	return string(b) + " " + t.Name() + " " + t.Field(0).Name + " " + t.Field(1).Name
+}
+`
+
+// containsMarker reports whether name occurs in data other than as the beginning of a longer
+// marker of the list: the import path .../zqpkga must not be "found" inside .../zqpkgax.
+func containsMarker(data []byte, name string, longer []string) bool {
+	nb := []byte(name)
+	for off := 0; ; {
+		i := bytes.Index(data[off:], nb)
+		if i < 0 {
+			return false
+		}
+		at := off + i
+		partOfLonger := false
+		for _, l := range longer {
+			if bytes.HasPrefix(data[at:], []byte(l)) {
+				partOfLonger = true
+			}
+		}
+		if !partOfLonger {
+			return true
+		}
+		off = at + 1
+	}
 }
 
 type ggCase struct {
@@ -235,8 +275,14 @@ func checkC14(c *Ctx) {
 			matched[m] = true
 		}
 		for _, m := range markers {
-			inPlain := bytes.Contains(plainData, []byte(m.Name))
-			inG := bytes.Contains(data, []byte(m.Name))
+			var longer []string
+			for _, o := range markers {
+				if len(o.Name) > len(m.Name) && strings.HasPrefix(o.Name, m.Name) {
+					longer = append(longer, o.Name)
+				}
+			}
+			inPlain := containsMarker(plainData, m.Name, longer)
+			inG := containsMarker(data, m.Name, longer)
 			if m.Class == "literal" && matched[m.Pkg] && !gc.Literals {
 				continue // literals of obfuscated packages only vanish with -literals
 			}
